@@ -82,8 +82,8 @@ def verdictSpec (s : Bytes) : Nat :=
     else if (body.take l).take 2 = Sasl.okB then PAM_SUCCESS else PAM_AUTH_ERR
   | _ => PAM_AUTHINFO_UNAVAIL
 
-theorem recvVerdict_eq_spec (evs : List SrvEv) : recvVerdict evs = verdictSpec (stream evs) := by
-  unfold recvVerdict
+theorem recvVerdictCore_eq_spec (evs : List SrvEv) : recvVerdictCore evs = verdictSpec (stream evs) := by
+  unfold recvVerdictCore
   cases hr : readN 2 evs [] with
   | short got =>
     have := readN_not_full (need := 2) (evs := evs) (acc := []) (by omega) (by intro g r; rw [hr]; simp)
@@ -148,5 +148,45 @@ theorem getPassword_error {i : Input} {e : Nat} (h : getPassword i = .error e) :
     e = PAM_AUTHTOK_RECOVERY_ERR := by
   obtain ⟨user, ufp, tfp, stack, conv, cok, srv⟩ := i
   cases ufp <;> cases tfp <;> cases stack <;> cases conv <;> simp [getPassword] at h <;> exact h.symm
+
+/-- The reply handling as a function of the delivered byte stream — except that a signal
+    interrupting the wait after a zero-length announcement makes the module give up. -/
+theorem recvVerdict_eq_spec (evs : List SrvEv) :
+    recvVerdict evs = if zeroLenInterrupted evs then PAM_AUTHINFO_UNAVAIL else verdictSpec (stream evs) := by
+  unfold recvVerdict
+  split
+  · rfl
+  · exact recvVerdictCore_eq_spec evs
+
+/-- In the singled-out case the announced length is zero: the byte-stream specification says
+    "authentication error" there, the module says "unavailable" — neither is success. -/
+theorem zeroLenInterrupted_spec (evs : List SrvEv) (h : zeroLenInterrupted evs = true) :
+    verdictSpec (stream evs) = PAM_AUTH_ERR := by
+  unfold zeroLenInterrupted at h
+  split at h
+  · rename_i hi lo rest hr
+    simp only [Bool.and_eq_true, decide_eq_true_eq] at h
+    obtain ⟨hle, hgot, _⟩ := readN_full hr
+    match hs : stream evs, hle with
+    | [], hh => simp at hh
+    | [_], hh => simp at hh
+    | a :: b :: body, _ =>
+      rw [hs] at hgot
+      simp only [List.nil_append, List.take_succ_cons, List.take_zero, List.cons.injEq, and_true] at hgot
+      obtain ⟨h1, h2⟩ := hgot
+      subst h1; subst h2
+      simp [verdictSpec, h.1]
+  · simp at h
+
+/-- A complete reply in one piece followed by the close: nothing is interrupted. -/
+theorem zeroLenInterrupted_single (b : Bytes) : zeroLenInterrupted [.data b, .eof] = false := by
+  unfold zeroLenInterrupted
+  match b with
+  | [] => simp [readN]
+  | [_] => simp [readN]
+  | hi :: lo :: body =>
+    cases body with
+    | nil => simp [readN, nextEv]
+    | cons x xs => simp [readN, nextEv]
 
 end Whawty.Pam
